@@ -566,3 +566,32 @@ pub fn minimise<T: Clone>(items: &[T], still_fails: impl Fn(&[T]) -> bool) -> Ve
     }
     cur
 }
+
+/// Contexts are reused across cases for speed.  When a check fails in such a warm context it is
+/// repeated once with fresh local state, so that every reported failure is reproducible from the
+/// case alone; a failure that only shows in the warm context is reported as such.
+pub fn with_fresh_retry<L>(
+    local: &mut L,
+    mk: impl Fn() -> L,
+    f: impl Fn(&mut L, &mut Stats) -> Result<(), Failure>,
+    st: &mut Stats,
+) -> Result<(), Failure> {
+    match f(local, st) {
+        Ok(()) => Ok(()),
+        Err(e) => {
+            let mut fresh = mk();
+            let was = st.frozen;
+            st.frozen = true;
+            let r = f(&mut fresh, st);
+            st.frozen = was;
+            match r {
+                Err(e2) => Err(e2),
+                Ok(()) => Err(Failure::new(
+                    format!("warm-only:{}", e.kind),
+                    format!("fails only in a context that has typed other texts before (history dependence): {}", e.message),
+                    e.case,
+                )),
+            }
+        }
+    }
+}
